@@ -42,8 +42,24 @@ def scene_digest(obs):
     return hashlib.sha256(json.dumps(metamorph.observe(obs), sort_keys=True, default=str).encode()).hexdigest()
 
 
+def big_scene(rng):
+    """A long, dense record (four ceilometers, 300 time steps, two noisy decks): sets of more than a thousand hits."""
+    rows = []
+    n = 300
+    for c in range(4):
+        for i in range(n):
+            dt = -3600.0 + 12.0 * i + 3.0 * c
+            hs = sorted({round(1500 + 40 * c + rng.gauss(0, 60), 1), round(2300 + rng.gauss(0, 90), 1)} if rng.random() < 0.9
+                        else {round(1500 + rng.gauss(0, 60), 1)})
+            for t, h in enumerate(hs):
+                rows.append((str(c), dt, float(h), t + 1))
+    return rows, {'MIN_SEP_VALS': [100, 1000]}, {'family': 'big'}
+
+
 def pick_scene(seed, k):
     rng = random.Random(f'{seed}:c09:{k}')
+    if k % 40 == 7:
+        return big_scene(rng)
     fam = rng.choice(['split', 'split', 'synth', 'chain', 'multi', 'bundle', 'degenerate'])
     return pipecheck.gen_scene(seed, k, fam)
 
